@@ -3,6 +3,7 @@ package sbom
 import (
 	"fmt"
 	"reflect"
+	"slices"
 	"sort"
 	"strings"
 
@@ -322,7 +323,9 @@ func (nl *NodeList) Intersect(nl2 *NodeList) *NodeList {
 		}
 		// Clone the node
 		newnode := node.Copy()
-		newnode.Update(ni2[id])
+		// Update installs the argument's slices and maps: hand it a copy so that
+		// the result shares nothing with nl2
+		newnode.Update(ni2[id].Copy())
 		ret.Nodes = append(ret.Nodes, newnode)
 
 		_, ok := rootElements[id]
@@ -366,7 +369,7 @@ func (nl *NodeList) Union(nl2 *NodeList) *NodeList {
 	ret := &NodeList{
 		Nodes:        []*Node{},
 		Edges:        copyEdgeList(nl.Edges),
-		RootElements: nl.RootElements,
+		RootElements: slices.Clone(nl.RootElements),
 	}
 
 	// Copy all nodes from the original nodelist
@@ -377,10 +380,12 @@ func (nl *NodeList) Union(nl2 *NodeList) *NodeList {
 	// Now reindex to know which one to append or update
 	nodeindex := ret.indexNodes()
 	for _, n := range nl2.Nodes {
+		// The result must not share nodes, slices or maps with nl2: Update
+		// installs the argument's slices and maps, so both branches take a copy
 		if _, ok := nodeindex[n.Id]; ok {
-			nodeindex[n.Id].Update(n)
+			nodeindex[n.Id].Update(n.Copy())
 		} else {
-			ret.Nodes = append(ret.Nodes, n)
+			ret.Nodes = append(ret.Nodes, n.Copy())
 		}
 	}
 
